@@ -1,3 +1,4 @@
-# location index 63 is always reserved for "Anywhere"
+# location 64 (1-based index, slot 63 in the 0-based MRGN table) is always reserved
+# for "Anywhere"
 MAX_LOCATIONS = 255
-ANYWHERE_LOCATION_ID = 63
+ANYWHERE_LOCATION_ID = 64
